@@ -13,6 +13,7 @@ from pymbolic.mapper.coefficient import CoefficientCollector
 
 from ..core import check, short
 from ..gen import expr as G
+from ..gen import scale
 from ..ref import normal, ratfun
 
 RULE = ("coefficient collector: expressions of the affine grammar A ::= const-expr | target | A+A | "
@@ -211,6 +212,28 @@ def c_collect(ctx, case):
     # history: ONE collector object used again -- for the whole expression and for its sums --
     # must give what a fresh collector gives
     cc = CoefficientCollector(names)
+    # ... and one collector that was built for OTHER targets and re-targeted through its public
+    # attribute (target_names is how the mapper is configured; it is read on every leaf)
+    other = ["u", "v"] if names is None or "u" not in names else None
+    rc = CoefficientCollector(other)
+    try:        # (a first use with the other targets; what it gives is not judged here)
+        rc(e)
+    except Exception:  # noqa: BLE001
+        pass
+    rc.target_names = names
+    ctx.count("collector_retargeted")
+    try:
+        again = rc(e)
+        if _cmap(again) != _cmap(co):
+            ctx.fail("C15.collect", case, "retargeted-differs",
+                     f"a CoefficientCollector({other}) whose target_names was then set to {names}: "
+                     f"{e} -> {_cs(again)}, a collector built with those targets gives {_cs(co)}")
+            return
+    except RecursionError:
+        raise
+    except Exception as ex:  # noqa: BLE001
+        ctx.fail("C15.collect", case, f"retargeted-raised:{type(ex).__name__}", f"{e}: {ex}")
+        return
     subs = [x for x in G.walk(e) if isinstance(x, p.Sum)][:4]
     for step, sub in enumerate([e, *subs, e]):
         ctx.case(None)
@@ -299,8 +322,12 @@ def make_system(rng, kind):
     params = [var("n"), var("m")]
     m = unimodular(rng, n)
     # choose solution, derive rhs: rhs_i = sum_j m_ij * sol_j  (sol affine in params, integral)
-    sol = [lin([rng.randint(-2, 2), rng.randint(-1, 1)], params, rng.randint(-5, 5))
-           for _ in range(n)]
+    if rng.random() < 0.2:      # magnitudes past 2**31 / 2**53 / 2**63: integers stay exact
+        sol = [lin([rng.choice([scale.big(rng), rng.randint(-2, 2)]), rng.randint(-1, 1)], params,
+                   scale.big(rng)) for _ in range(n)]
+    else:
+        sol = [lin([rng.randint(-2, 2), rng.randint(-1, 1)], params, rng.randint(-5, 5))
+               for _ in range(n)]
     eqs = []
     for row in m:
         lhs_terms = [(c, u) for c, u in zip(row, unk) if c != 0]
@@ -481,6 +508,7 @@ def workload(ctx):
         rhs = [[rng.randint(-4, 4) for _ in range(2)] for _ in m]
         ctx.run("C15.gauss", (m, rhs))
     ctx.floor("collector_calls", 10000)
+    ctx.floor("collector_retargeted", 5000)
     ctx.floor("nonaffine_inputs", 2000)
     ctx.floor("solutions_verified", 500)
     ctx.floor("expect:raise", 300)
